@@ -356,6 +356,10 @@ def programs(tier):
         tmpl.append(([('*', 'A', 'K'), ('+', 0, 'B'), (op, 1, 0)], [2]))
         tmpl.append(([('neg', 'A'), ('+', 'B', 0), (op, 1, 0)], [2]))
         tmpl.append(([('neg', 'A'), ('-', 'B', 0), (op, 1, 'K')], [2]))
+        # the same (double) negation on both sides of one operator
+        tmpl.append(([('neg', 'A'), ('neg', 0), (op, 1, 1)], [2]))
+        tmpl.append(([('neg', 'A'), ('neg', 0), (op, 1, 0)], [2]))
+        tmpl.append(([('neg', 'K'), ('neg', 0), (op, 1, 1), ('+', 2, 'A')], [3]))
     # dead code: unreferenced pure operators sitting on impure units, next to a live output
     for op in ['+', '*', 'neg']:
         dead = ('neg', 'B') if op == 'neg' else (op, 'B', 'c1')
